@@ -7,7 +7,8 @@ Extracted (-> lean/VlsModel/Gen/Onchain.lean):
   * make_default_simple_policy: min/max_feerate_per_kw for mainnet and the other networks
   * DEFAULT_FEE_VELOCITY_CONTROL (limit, interval type)
   * check_onchain_tx: per-input witness weight constant and the default witness element length
-  * estimate_feerate_per_kw: the *shape* of the body (saturating_mul(1000).saturating_add(999) / weight,
+  * validate_beneficial_value: the exact u128 feerate expression and comparison (fix 3751e9c)
+  * estimate_feerate_per_kw (used for HTLC-tx recomposition, C09): the *shape* of the body (saturating_mul(1000).saturating_add(999) / weight,
     clamped into u32); any other shape fails the extraction, so the arithmetic the model assumes is the
     arithmetic the source states.
 """
@@ -101,6 +102,15 @@ def extract(repo):
     if eb != want:
         raise ExtractError("estimate_feerate_per_kw: body is not the saturating form the model assumes: " + eb)
 
+    # validate_beneficial_value: exact u128 comparison (fix 3751e9c), no u32 clamp
+    vb = re.sub(r"\s+", "", body_after(sv, r"fn\s+validate_beneficial_value\s*\("))
+    if "letfeerate_perkw:u128=(non_beneficialasu128*1000+999)/weightasu128;" not in vb:
+        raise ExtractError("validate_beneficial_value: feerate is not the exact u128 form the model assumes")
+    if "iffeerate_perkw>self.policy.max_feerate_per_kwasu128{" not in vb:
+        raise ExtractError("validate_beneficial_value: comparison with max_feerate_per_kw is not the u128 form")
+    if "estimate_feerate_per_kw" in vb:
+        raise ExtractError("validate_beneficial_value: still uses the clamped estimate_feerate_per_kw")
+
     lean = "namespace VlsModel.Gen.Onchain\n"
     lean += f"def maxChainLag : Nat := {max_chain_lag}\n"
     lean += f"def maxOnchainTxSize : Nat := {max_tx_size}\n"
@@ -115,8 +125,10 @@ def extract(repo):
     lean += f"def defaultFeeVelocityIntervalCode : Nat := {('Hourly', 'Daily', 'Unlimited').index(fee_itype)}\n"
     lean += f"def witnessWeightConst : Nat := {wit_const}\n"
     lean += f"def witnessDefaultLen : Nat := {wit_default}\n"
-    lean += "/-- `estimate_feerate_per_kw` has the saturating shape (checked textually by the translator). -/\n"
+    lean += "/-- `estimate_feerate_per_kw` (HTLC recomposition) has the saturating shape (checked textually). -/\n"
     lean += "def estimateFeerateIsSaturating : Bool := true\n"
+    lean += "/-- `validate_beneficial_value` compares the exact u128 feerate (checked textually). -/\n"
+    lean += "def beneficialFeerateIsExact : Bool := true\n"
     lean += "end VlsModel.Gen.Onchain\n"
     facts = {
         "MAX_CHAIN_LAG": max_chain_lag, "MAX_ONCHAIN_TX_SIZE": max_tx_size,
@@ -124,9 +136,10 @@ def extract(repo):
         "default_policy_feerates": pol,
         "DEFAULT_FEE_VELOCITY_CONTROL": {"limit_msat": fee_limit, "interval_type": fee_itype},
         "witness_weight_const": wit_const, "witness_default_len": wit_default,
-        "estimate_feerate_per_kw": "saturating_mul(1000).saturating_add(999)/weight, try_from -> u32::MAX",
+        "estimate_feerate_per_kw": "saturating_mul(1000).saturating_add(999)/weight, try_from -> u32::MAX (HTLC recomposition only)",
+        "validate_beneficial_value": "(non_beneficial as u128 * 1000 + 999) / weight as u128 > max_feerate_per_kw as u128",
     }
-    obl8 = ["Gen.Onchain: default max_feerate_per_kw < u32::MAX and the default fee velocity control is limited (theorem C08_gen_defaults_ok)"]
+    obl8 = ["Gen.Onchain: the default fee velocity control is limited, validate_beneficial_value compares the exact feerate (theorem C08_gen_defaults_ok)"]
     obl9 = ["Gen.Onchain: MAX_CHAIN_LAG and the sequence tables are as the sweep theorems use them (theorem C09_gen_table_ok)"]
     return {"Onchain.lean": lean}, {"C08": {"facts": facts, "obligations": obl8},
                                    "C09": {"facts": {k: facts[k] for k in ("MAX_CHAIN_LAG", "ANCHOR_SEQS", "NON_ANCHOR_SEQS", "default_policy_feerates")}, "obligations": obl9}}
